@@ -37,6 +37,7 @@ typedef struct carquet_column_data {
     carquet_physical_type_t type;
     int32_t type_length;        /* For fixed-length types */
     carquet_data_ownership_t ownership;  /* OWNED or VIEW (for future zero-copy) */
+    uint8_t* payload;           /* BYTE_ARRAY: the bytes the values point to, owned by the batch */
 } carquet_column_data_t;
 
 struct carquet_row_batch {
@@ -497,6 +498,39 @@ carquet_status_t carquet_batch_reader_next(
 
             col_data->num_values = values_read;
 
+            /* BYTE_ARRAY values point into the column reader's page and
+             * dictionary buffers, which the next read on that column (or a
+             * row group switch) releases. A batch lives until it is freed,
+             * so it takes its own copy of the bytes. */
+            if (col_data->type == CARQUET_PHYSICAL_BYTE_ARRAY) {
+                carquet_byte_array_t* ba = (carquet_byte_array_t*)col_data->data;
+                int64_t present = values_read;
+                if (def_levels) {
+                    present = 0;
+                    for (int64_t j = 0; j < values_read; j++) {
+                        if (def_levels[j] >= max_def) present++;
+                    }
+                }
+                size_t total = 0;
+                for (int64_t j = 0; j < present; j++) {
+                    if (ba[j].length > 0) total += (size_t)ba[j].length;
+                }
+                col_data->payload = malloc(total > 0 ? total : 1);
+                if (!col_data->payload) {
+                    read_error = true;
+                    free(def_levels);
+                    continue;
+                }
+                size_t off = 0;
+                for (int64_t j = 0; j < present; j++) {
+                    if (ba[j].length > 0) {
+                        memcpy(col_data->payload + off, ba[j].data, (size_t)ba[j].length);
+                        ba[j].data = col_data->payload + off;
+                        off += (size_t)ba[j].length;
+                    }
+                }
+            }
+
             /* Build null bitmap from definition levels */
             if (def_levels && col_data->null_bitmap) {
                 int64_t full_bytes = values_read / 8;
@@ -600,6 +634,7 @@ void carquet_row_batch_free(carquet_row_batch_t* batch) {
         }
         /* null_bitmap is always owned */
         free(batch->columns[i].null_bitmap);
+        free(batch->columns[i].payload);
     }
 
     carquet_arena_destroy(&batch->arena);
